@@ -31,6 +31,9 @@ var stateOrder = map[string]int{"opening": 0, "open": 1, "closing": 2, "closed":
 func init() {
 	register("C03", func(c *core.Ctx, tier string) {
 		abortedPostNotAnError(c, "C03.18")
+		bufferedCloseRechecksWritable(c, "C03.19")
+		closedByPacketListener(c, "C03.20")
+		eofWithCompleteFrame(c, "C03.21")
 		pingBody(c, "C03.16") // a session that stopped being open still ends with a close event: the ping deadline is armed whatever became of the ping
 		baseTransportEffects(c, "C03.14")
 		variadicIndexSafety(c, "C03.15")
